@@ -152,6 +152,19 @@ CHECKS = {
              "digit-level _float/_unfloat round trip (floating point / decimal conversion), classification other than U, "
              "non-canonical encodings of zero or explicit '+' signs.",
         ref="DESIGN.md section 3 C12", technique="AST-derived SMT (z3 strings/LIA) for the column layout; bounded symbolic execution of the real checksum/validity code on symbolic characters; solver-enumerated line-kind sequences for from_string"),
+    "C19": dict(
+        text="utils.ltan, utils.constellation, utils.beta, utils.interplanetary.bplane, utils.leo.sso/frozen are executed "
+             "symbolically: ltan2raan(raan2ltan(W)) = W mod 2 pi and the converse mod 86400 s for any sun right ascension (mean and "
+             "true), results in range, noon at the sun's right ascension; Walker Star/Delta t/p/f with p | t (t, p, f symbolic "
+             "integers): t/p per plane, planes spaced pi/p resp. 2 pi/p from raan0, in-plane spacing 2 pi/(t/p), inter-plane phasing "
+             "f 2 pi/t; sin(beta) = h^.s^ with beta in [-90, 90] deg; B-plane: (S, T, R) orthonormal, B perpendicular to S and h, S "
+             "= e^/e + (h^ x e^) sqrt(1-1/e^2) (the incoming asymptote; this last obligation is heavy and may be reported "
+             "inconclusive in the quick tier); sso(a, e) -> i makes the first-order J2 node drift equal 2 pi/(365.256363004 d) and "
+             "sso(a, i) recovers e; frozen-orbit eccentricity formula.",
+        note="Trusted: z3; the sun's right ascension, Earth constants and the reference body are symbols. Outside (declared, not "
+             "claimed): the Lambert solver (bracketing + Newton on transcendental Stumpff functions), sso_frozen iteration, |B| = "
+             "impact parameter through the full element conversion.",
+        ref="DESIGN.md section 3 C19", technique=TECH),
     "C20": dict(
         text="The real utils/node.py is executed on link histories in which every choice -- tree shape (parent vector), insertion "
              "permutation, orientation of each `+`, neighbour orders of the pre-state, end points -- is a symbolic integer concretised "
